@@ -85,6 +85,17 @@ class NP:
         a.store_dtype = getattr(dtype, "name", None)
         return a
 
+    def full(self, shape, fill_value, dtype=None):
+        # NumPy: without dtype the array takes the type of the fill value (np.full(n, 400) is an integer array)
+        v = fill_value
+        if dtype is None:
+            k = "complex" if isinstance(v, (Cx, complex)) else ("bool" if isinstance(v, (bool, SBool)) else
+                                                               ("int" if (isinstance(v, int) or (isinstance(v, Num) and v.is_int)) else "float"))
+        else:
+            k = _kind(dtype)
+        v = sym.cx(v) if k == "complex" else (v if k == "bool" else num(v))
+        return arrays.full(_shape(shape), v, k)
+
     def ones(self, shape, dtype=None):
         k = _kind(dtype)
         a = arrays.full(_shape(shape), _one(k), k)
